@@ -10,9 +10,12 @@ EXPLANATION = (
     "same template object; parser notes use the parser's own file and source; (CHUNKNAME) every Chunk is created with the name of the template "
     "that defines it (Compiler::new(tpl_name), compile_block reuses the enclosing chunk's name), so errors inside inherited blocks, includes "
     "and components name the defining template; (SETSRC) the SyntaxError arm of Template::new attaches the source before returning, and "
-    "lexer/parser raise nothing but syntax errors (C06.ERRKIND side), so no report escapes without its source. NOT decided: that line/column/"
-    "byte range are mutually consistent and that the span covers the offending token (value-level).")
-NOT_DECIDED = "consistency of line/column/byte range; that the span covers the offending token; quality of expanded spans for fused paths"
+    "lexer/parser raise nothing but syntax errors (C06.ERRKIND side), so no report escapes without its source; (POS) the tokenizer's line, "
+    "column and byte counters are written only inside per-char loops — byte += len_utf8(c), column += 1 or (line += 1, column = 0) for "
+    "every char consumed — and every Span takes its line/column from them, so a reported line:column designates the same position as the "
+    "byte range. NOT decided: that the span covers the offending token (value-level).")
+NOT_DECIDED = ("that the span covers the offending token; quality of expanded spans for fused paths; line/column consistency is decided only as the lock-step of the "
+               "tokenizer's counters (C12.POS), not for spans combined later")
 ASSUMPTIONS = []
 
 T = set(TRANSPARENT_CALLS) | {"std::option::Option::<T>::expect", "std::option::Option::<T>::unwrap"}
